@@ -9,7 +9,7 @@ import os, sys, math, json
 from vlib import *
 import tvgen
 
-PROPS = ['Props/Properties_C29.v']
+PROPS = ['Props/Properties_C29.v', 'Props/Properties_C29b.v', 'Props/Properties_C29c.v']
 GROUPS = ['c29in', 'c29si', 'c29sa']
 KEY_INDEF = 'isValidInertiaMatrix-accepts-indefinite'
 
@@ -172,25 +172,49 @@ def correspondence(ctx, metas, n):
     return dis, meta
 
 # ------------------------------------------------------------------------------------------------ implementation probes
-def build_probe(ctx):
-    exe = ctx.bdir('C29_search')
-    if not ctx.cxx(os.path.join(VERIF, 'harness', 'C29_search.cpp'), exe, flags=('-DNDEBUG',)):
-        ctx.broken.append(('search:C29', 'search harness does not compile')); return None
-    return exe
+def start_probe_builds(ctx):
+    """compile the two probe executables in the background while Coq runs: C29_search with NDEBUG (as the libraries),
+    C29_witness without NDEBUG so that the Debug-mode constructor check Inertia_::errChk is compiled in"""
+    import threading
+    res = {}
+    def job(name, flags):
+        res[name] = ctx.cxx(os.path.join(VERIF, 'harness', 'C29_search.cpp'), ctx.bdir(name), flags=flags)
+    ths = [threading.Thread(target=job, args=('C29_search', ('-DNDEBUG',))), threading.Thread(target=job, args=('C29_witness', ()))]
+    for t in ths: t.start()
+    return ths, res
 
-def replay_witness(ctx, exe):
-    """the Coq witness of C29_valid_implies_psd_refuted on the real Inertia class"""
+def replay_witness(ctx):
+    """the Coq witness of C29_valid_implies_psd_refuted on the real Inertia class (errChk_active=1 in the output confirms that
+    the Debug-mode constructor check ran)"""
+    exe = ctx.bdir('C29_witness')
     rc, out, err = sh([exe, 'witness'], timeout=120)
     w = [l for l in out.split('\n') if l.startswith('WITNESS')]
     ctx.extra['witness_replay'] = w[0] if w else 'no output'
-    if w and 'accepted=1' in w[0] and 'indefinite=1' in w[0] and 'ctor_ok=1' in w[0]:
+    if w and 'accepted=1' in w[0] and 'indefinite=1' in w[0]:
         ctx.report(KEY_INDEF, 'Inertia::isValidInertiaMatrix (and the Debug-mode Inertia constructor) accept the indefinite matrix '
                    'moments (1,2,2) products xy=1 xz=-1 yz=0.5, det = -1.25: ' + w[0],
                    {'replay_cmd': exe + ' witness', 'failing_input': {'moments': [1, 2, 2], 'products': [1, -1, 0.5]}, 'output': w[0]})
     else:
-        # the implementation no longer accepts the witness: the refutation theorem would have broken too (it is about the translated test)
+        # the implementation no longer accepts the witness: the refutation theorem (about the translated test) breaks as well
         ctx.notes.append('witness not reproduced on the implementation: ' + (w[0] if w else out[-300:]))
         ctx.extra['witness_reproduced'] = False
+
+def translate_all(ctx):
+    """the three groups translated concurrently (same bookkeeping as Ctx.translate)"""
+    import subprocess
+    procs = [(g, subprocess.Popen([sys.executable, os.path.join(VERIF, 'translate', 'sk2coq.py'), g], stdout=subprocess.PIPE,
+                                  stderr=subprocess.PIPE, text=True)) for g in GROUPS]
+    metas = []
+    for g, pr in procs:
+        out, err = pr.communicate()
+        if pr.returncode not in (0, 3): ctx.fatal('translator crashed on %s: %s' % (g, err[-2000:]))
+        meta = json.load(open(os.path.join(COQ, 'Gen', g + '.json')))
+        ctx.trusted.add('translator translate/sk2coq.py + clang 14 JSON AST (group %s: %d kernels regenerated from %s)' %
+                        (g, len(meta['kernels']), meta['source']))
+        for name, why in meta['failed']: ctx.broken.append(('translator:%s:%s' % (g, name), why))
+        ctx.log('translated group %s: %d kernels, %d failed' % (g, len(meta['kernels']), len(meta['failed'])))
+        metas.append(meta)
+    return metas
 
 def search(ctx, exe, n):
     """failing-input search on the implementation: the property's own predicates on random inputs"""
@@ -209,7 +233,8 @@ def search(ctx, exe, n):
 
 def run(ctx):
     ctx.build_repo()
-    metas = [ctx.translate(g) for g in GROUPS]
+    ths, built = start_probe_builds(ctx)
+    metas = translate_all(ctx)
     ok = ctx.coq_props(PROPS)
     n = 40 if ctx.tier == 'quick' else 600
     dis, meta = correspondence(ctx, metas, n)
@@ -224,11 +249,25 @@ def run(ctx):
         ctx.broken.append(('correspondence:c29:' + k, 'model and implementation differ: args=%s cxx=%s model=%s' % (args, fa, fb)))
     ctx.assumptions += ['theorems are over the reals (ROps); binary64 rounding is covered only by the tolerance-based correspondence (rel 1e-9)',
                         'NaN/Inf inputs are outside the model (isNaN() is translated to false)',
-                        'Inertia_::errChk (Debug-only assertion) is not part of the model; libraries and harness are built with NDEBUG',
+                        'Inertia_::errChk (Debug-only assertion) is not part of the model; libraries and correspondence harness are built with NDEBUG',
                         'the float instantiation (fInertia etc.) is the same template text; only the double instantiation is executed']
-    exe = build_probe(ctx)
-    if exe:
-        replay_witness(ctx, exe)
-        if ctx.broken or ctx.tier == 'thorough':
-            search(ctx, exe, 3000 if ctx.tier == 'quick' else 30000)
+    for t in ths: t.join()
+    if not built.get('C29_witness') or not built.get('C29_search'):
+        ctx.broken.append(('search:C29', 'probe harness harness/C29_search.cpp does not compile against the current source'))
+    if built.get('C29_witness'): replay_witness(ctx)
+    if built.get('C29_search') and (ctx.broken or ctx.tier == 'thorough'):
+        search(ctx, ctx.bdir('C29_search'), 3000 if ctx.tier == 'quick' else 30000)
     ctx.finish()
+
+def replay(ctx, path):
+    """bin/check C29 --replay FILE: re-run the command recorded in a replay file and show what the implementation does"""
+    obj = json.load(open(path))
+    print('replaying %s: %s' % (path, obj.get('what', obj.get('no_longer_checks'))))
+    cmd = obj.get('replay_cmd')
+    if cmd:
+        for src, name, flags in (('C29_search.cpp', 'C29_search', ('-DNDEBUG',)), ('C29_search.cpp', 'C29_witness', ())):
+            if name in cmd and not os.path.exists(ctx.bdir(name)):
+                ctx.build_repo(); ctx.cxx(os.path.join(VERIF, 'harness', src), ctx.bdir(name), flags=flags)
+        rc, out, err = sh(cmd, timeout=1200)
+        print(out[-3000:])
+    if 'failing_input' in obj: print('failing input: %s' % (obj['failing_input'],))
